@@ -668,3 +668,95 @@ class NoListener:
 
     def stop(self):
         pass
+
+
+# ---------------------------------------------------------------------------
+# Global dispatching seams
+# ---------------------------------------------------------------------------
+# Installed once per interpreter *before* Loki is imported, so that any
+# ``from concurrent.futures import ...`` / ``from multiprocessing import Manager``
+# anywhere in the tree under test binds to a dispatcher: with a simulation
+# active the simulated object is used, otherwise the real one.  This keeps the
+# harness sound under refactorings that move imports around or use
+# ``concurrent.futures.wait`` on the futures.
+
+_GLOBAL_INSTALLED = False
+
+
+def sim_wait(fs, timeout=None, return_when='ALL_COMPLETED'):
+    import concurrent.futures as cf  # pylint: disable=import-outside-toplevel
+    fs = list(fs)
+    sim = current()
+
+    def cond():
+        done = [f for f in fs if f.done()]
+        if return_when == cf.FIRST_COMPLETED:
+            return bool(done)
+        if return_when == cf.FIRST_EXCEPTION:
+            return any(f._exc is not None for f in done) or len(done) == len(fs)
+        return len(done) == len(fs)
+
+    sim.wait(cond, timeout)
+    done = {f for f in fs if f.done()}
+    return cf._base.DoneAndNotDoneFutures(done, set(fs) - done)
+
+
+def install_global_seams():
+    global _GLOBAL_INSTALLED  # pylint: disable=global-statement
+    if _GLOBAL_INSTALLED:
+        return
+    _GLOBAL_INSTALLED = True
+    import concurrent.futures as cf  # pylint: disable=import-outside-toplevel
+    import concurrent.futures.process as cfp  # pylint: disable=import-outside-toplevel
+    import multiprocessing as mp  # pylint: disable=import-outside-toplevel
+    import logging.handlers as lh  # pylint: disable=import-outside-toplevel
+
+    real_ppe = cfp.ProcessPoolExecutor
+    real_wait = cf.wait
+    real_asc = cf.as_completed
+    real_manager = mp.Manager
+    real_listener = lh.QueueListener
+
+    class ProcessPoolExecutorSeam(real_ppe):
+        def __new__(cls, *a, **kw):
+            if CURRENT is not None:
+                return SimExecutor(*a, **kw)
+            return object.__new__(cls)
+
+    ProcessPoolExecutorSeam.__name__ = 'ProcessPoolExecutor'
+    ProcessPoolExecutorSeam.__qualname__ = 'ProcessPoolExecutor'
+
+    def wait(fs, timeout=None, return_when=cf.ALL_COMPLETED):
+        fs = list(fs)
+        if fs and all(isinstance(f, SimFuture) for f in fs):
+            return sim_wait(fs, timeout, return_when)
+        return real_wait(fs, timeout, return_when)
+
+    def as_completed(fs, timeout=None):
+        fs = list(fs)
+        if fs and all(isinstance(f, SimFuture) for f in fs):
+            return sim_as_completed(fs, timeout)
+        return real_asc(fs, timeout)
+
+    def Manager(*a, **kw):  # pylint: disable=invalid-name
+        if CURRENT is not None:
+            return SimManager()
+        return real_manager(*a, **kw)
+
+    class QueueListenerSeam(real_listener):
+        def __new__(cls, *a, **kw):
+            if CURRENT is not None:
+                return NoListener()
+            return object.__new__(cls)
+
+    QueueListenerSeam.__name__ = 'QueueListener'
+    QueueListenerSeam.__qualname__ = 'QueueListener'
+
+    cf.ProcessPoolExecutor = ProcessPoolExecutorSeam
+    cfp.ProcessPoolExecutor = ProcessPoolExecutorSeam
+    cf.wait = wait
+    cf._base.wait = wait
+    cf.as_completed = as_completed
+    cf._base.as_completed = as_completed
+    mp.Manager = Manager
+    lh.QueueListener = QueueListenerSeam
